@@ -4,7 +4,7 @@
    search, attribute / tag lookup, extension calls).
 
    MAIN THEOREM (full expression language, every operator):
-     Theorem typeof_sound_strict : forall sch tv e, schema_wf sch -> tenv_wf sch tv -> agraph_wf sch -> keys_small e = true ->
+     Theorem typeof_sound_strict : forall sch tv e, schema_wf sch -> tenv_wf sch tv -> agraph_wf sch -> action_declared sch tv -> keys_small e = true ->
        forall caps t caps', typeof true sch tv e caps = TOk t caps' ->
        forall en, env_ok sch tv en -> actions_conform sch (e_store en) -> store_types_known sch (e_store en) -> caps_hold en caps ->
          match eval en e with
@@ -13,8 +13,9 @@
          end.
    i.e. `sound_at sch true tv e` of Lang/TypeSound.v, where "conforming environment" additionally contains the two facts the Go entity
    validator checks and entity_ok does not state (actions_conform, store_types_known), for schemas with a well-formed action graph
-   (agraph_wf) and expressions with attribute names below 10^39 bytes (keys_small).  agraph_wf, actions_conform and store_types_known are
-   used by the `in` case only.  Also proved:
+   (agraph_wf), request environments whose action is a declared action (action_declared) and expressions with attribute names below
+   10^39 bytes (keys_small).  agraph_wf, action_declared, actions_conform and store_types_known are used by the `in` case only
+   (both of its rules: the type-level one and the action-hierarchy one for operands that denote actions).  Also proved:
      typeof_sound_strict_in_free : schema_wf sch -> tenv_wf sch tv -> in_free_small e = true -> sound_at sch true tv e
         (literally sound_at, no extra store / action hypothesis, for expressions without `in`; `is .. in` is allowed),
      typeof_strict_WT   : every type typeof produces has pairwise distinct record keys at every depth,
@@ -22,7 +23,9 @@
                           (needed for `a || b` with b : True, whose capabilities are returned although b may not run),
      permissive_unsound : the permissive-mode counterexample (F29), by vm_compute,
      strict_needs_action_conformance : without actions_conform the strict-mode statement is false (a store that env_ok admits and
-                          validateActionEntity rejects; concrete witness below, with a proof that it violates actions_conform).
+                          validateActionEntity rejects; concrete witness below, with a proof that it violates actions_conform),
+     strict_needs_action_declared : without action_declared it is false too (`action in action` is typed False when the request
+                          action is not in ts_actions; model-level only: Go enumerates request environments from schema.Actions).
 
    HYPOTHESES (definitions in TypeSoundLemmas.v):
    - schema_wf sch := entity_of sch [] = None /\
@@ -35,10 +38,13 @@
    - keys_small e: every attribute name k in an access `a.k` inside e is shorter than 10^39 bytes.  MODEL ARTIFACT: cap_key prints the
        length of k with Text.print_nat, which keeps 40 digits; with that bound cap_key is injective (cap_key_inj: one side small, the
        other side arbitrary), beyond it two different paths can in principle get the same key.  Go's strconv.Quote has no such limit.
+   - action_declared sch tv := umem (tv_action tv) (ts_actions sch) = true.
    - agraph_wf sch :=
+       (forall u, In u (ts_actions sch) <-> In u (map fst (ts_agraph sch))) /\
        (forall a ps, In (a, ps) (ts_agraph sch) -> is_action_type (fst a) = true /\ forall p, In p ps -> In p (map fst (ts_agraph sch))) /\
        (forall n, is_action_type n = true -> entity_of sch n = None /\ smem n (ts_enums sch) = false) /\
        (forall n te p, entity_of sch n = Some te -> In p (te_parents te) -> is_action_type p = false)
+       (d, first conjunct) ts_actions and the keys of ts_agraph are the same set;
        (a) declared actions have action entity types and their listed parents are declared actions (resolveActions / qualifyActionType,
        validateActionMembership); (b) an action entity type is neither declared nor enumerated (Cedar reserves the name Action; Go's
        Validator.Entity tests isActionEntity first, so for such a name entity_ok and the Go code would disagree anyway); (c) no
@@ -57,7 +63,9 @@
    - hasTag on a non-singleton entity lub was typed False as soon as ONE member type had no tags;
    - `in` with an enum-typed left operand was typed False although enum entities with parents were accepted by the entity validator;
    - `in` with an action-typed left operand that does not syntactically denote an action was typed False whenever the type names
-     differ, although action groups may live in another namespace (fixed: isActionTypeDescendant; is_action_ty_desc_complete here).
+     differ, although action groups may live in another namespace (fixed: isActionTypeDescendant; is_action_ty_desc_complete here);
+   - (found by the coordinator) `action in Action::"grp"` was typed True from the schema although it is false when the action entity
+     is missing from the store; now Bool, reflexive membership stays True (P_in: reach is reflexive; areach_complete for False).
    No operator is excluded. *)
 From Coq Require Import ZArith List Bool String Lia Relations Arith.
 Import ListNotations.
@@ -151,6 +159,9 @@ Section Main.
   Hypothesis Hwf : schema_wf sch.
   Hypothesis Htv : tenv_wf sch tv.
   Variable ai : bool.
+  (* what the `in` case needs beyond env_ok: the hypotheses on the store, and that the request environment's action is a declared
+     action (request environments are enumerated from the schema's actions) *)
+  Definition in_env_hyps (st : store) : Prop := in_hyps sch st /\ umem (tv_action tv) (ts_actions sch) = true.
 
   Local Notation T := (typeof true sch tv).
 
@@ -186,7 +197,7 @@ Section Main.
     core ai e = true ->
     forall caps t caps', T e caps = TOk t caps' ->
       WT t /\
-      forall en, env_ok sch tv en -> (ai = true -> in_hyps sch (e_store en)) -> caps_hold en caps ->
+      forall en, env_ok sch tv en -> (ai = true -> in_env_hyps (e_store en)) -> caps_hold en caps ->
         res_sound en t caps' (eval en e) /\ ((t = CTrue \/ t = CNever) -> caps_hold en caps').
 
   Lemma res_sound_ok en t c r : res_sound en t c r -> res_ok r t.
@@ -641,18 +652,91 @@ Section Main.
       destruct (str_eqb t0 ty) eqn:E; [|constructor]. apply str_eqb_eq in E. subst t0. apply smem_In in Hin. congruence.
   Qed.
   (* ---------------- in, is-in ---------------- *)
-  Lemma P_in a b : P a -> P b -> P (EIn a b).
+  Definition in_general (ll : list str) (tb : cty) (caps : list cap) : tres :=
+    match (match tb with CEnt x => Some x | CSet (CEnt x) => Some x | _ => None end) with
+    | Some r => if any_descendant sch ll r then TOk CBool caps else TOk CFalse caps
+    | None => TOk CBool caps
+    end.
+
+  (* the action-hierarchy rule: operands that denote actions / entity literals *)
+  Definition elem_uid (x : expr) : option uid :=
+    match action_euid sch tv x with
+    | Some u => Some u
+    | None => match x with ELit (VEntity t i) => Some (t, i) | _ => None end
+    end.
+  Definition euids_go : list expr -> option (list uid) :=
+    fix go (l : list expr) : option (list uid) :=
+      match l with
+      | [] => Some []
+      | x :: r => match elem_uid x with
+                  | Some u => match go r with Some us => Some (u :: us) | None => None end
+                  | None => None
+                  end
+      end.
+  Lemma action_euids_eq e :
+    action_euids sch tv e =
+    match action_euid sch tv e with
+    | Some u => Some [u]
+    | None => match e with ESet [] => None | ESet els => euids_go els | _ => None end
+    end.
+  Proof. reflexivity. Qed.
+
+  Lemma action_euid_eval en x u : env_ok sch tv en -> action_euid sch tv x = Some u -> eval en x = Ok (ent_of u).
   Proof.
-    intros IHa IHb Hcore caps t caps' H. cbn [core] in Hcore. apply andb_true_iff in Hcore. destruct Hcore as [Hcore Hcb].
-    apply andb_true_iff in Hcore. destruct Hcore as [Hai Hca].
-    cbn [typeof] in H.
-    destruct (T a caps) as [ta ca| |] eqn:Ha; destruct (T b caps) as [tb cb| |] eqn:Hb; try discriminate.
+    intros (_ & _ & Ha & _) H. destruct x as [v|x| | | | | | | | | | | | | | | | | | | | | | | | | | | | | |]; try discriminate.
+    - destruct v; try discriminate. cbn [action_euid] in H. destruct (umem (ty, id) (ts_actions sch)); [|discriminate]. inversion H; subst. reflexivity.
+    - destruct x; try discriminate. cbn [action_euid] in H. inversion H; subst. cbn [eval var_value]. rewrite Ha. reflexivity.
+  Qed.
+
+  Lemma action_euid_declared x u : umem (tv_action tv) (ts_actions sch) = true -> action_euid sch tv x = Some u -> In u (ts_actions sch).
+  Proof.
+    intros Hact H. apply (umem_In). destruct x as [v|x| | | | | | | | | | | | | | | | | | | | | | | | | | | | | |]; try discriminate.
+    - destruct v; try discriminate. cbn [action_euid] in H. destruct (umem (ty, id) (ts_actions sch)) eqn:E; [|discriminate]. inversion H; subst. exact E.
+    - destruct x; try discriminate. cbn [action_euid] in H. inversion H; subst. exact Hact.
+  Qed.
+
+  Lemma elem_uid_eval en x u : env_ok sch tv en -> elem_uid x = Some u -> eval en x = Ok (ent_of u).
+  Proof.
+    intros Hen H. unfold elem_uid in H. destruct (action_euid sch tv x) as [u'|] eqn:E.
+    - inversion H; subst. eapply action_euid_eval; eauto.
+    - destruct x as [v| | | | | | | | | | | | | | | | | | | | | | | | | | | | | | |]; try discriminate. destruct v; try discriminate. inversion H; subst. reflexivity.
+  Qed.
+
+  Lemma euids_go_eval en : env_ok sch tv en -> forall els rs, euids_go els = Some rs -> seq_res (map (eval en) els) = inr (map ent_of rs).
+  Proof.
+    intros Hen. induction els as [|x r IH]; intros rs H; cbn [euids_go] in H.
+    - inversion H; subst. reflexivity.
+    - destruct (elem_uid x) as [u|] eqn:Ex; [|discriminate]. fold euids_go in H. destruct (euids_go r) as [us|]; [|discriminate].
+      inversion H; subst. cbn [map seq_res]. rewrite (elem_uid_eval en x u Hen Ex), (IH us eq_refl). reflexivity.
+  Qed.
+
+  (* evaluation of `l in b` when b is such an expression *)
+  Lemma action_euids_eval en st l b rs : env_ok sch tv en -> action_euids sch tv b = Some rs ->
+    exists w r, eval en b = Ok w /\ do_in st l w = Ok (VBool r) /\ (r = true <-> exists x, In x rs /\ reach_st st l x).
+  Proof.
+    intros Hen H. rewrite action_euids_eq in H. destruct (action_euid sch tv b) as [u|] eqn:Eb.
+    - inversion H; subst. destruct (do_in_uids_single st l u) as (r & Hr & Hiff). exists (ent_of u), r.
+      split; [eapply action_euid_eval; eauto|]. split; [exact Hr|]. rewrite Hiff. split.
+      + intros Hx. exists u. split; [left; reflexivity | exact Hx].
+      + intros (x & [<-|[]] & Hx). exact Hx.
+    - destruct b as [| | | | | | | | | | | | | | | | | | | | | | | | | | | |els| | |]; try discriminate.
+      destruct els as [|x0 els]; [discriminate|].
+      destruct (do_in_uids_set st l rs) as (r & Hr & Hiff). exists (mk_set (map ent_of rs)), r.
+      split; [|split; assumption]. cbn [eval]. rewrite (euids_go_eval en Hen _ _ H). reflexivity.
+  Qed.
+
+  Lemma in_general_sound a b ll tb ca cb caps t caps' :
+    P a -> P b -> core ai a = true -> core ai b = true -> ai = true ->
+    T a caps = TOk (CEnt ll) ca -> T b caps = TOk tb cb -> is_ent_or_set_of_ent tb = true ->
+    in_general ll tb caps = TOk t caps' ->
+    WT t /\
+    forall en, env_ok sch tv en -> (ai = true -> in_env_hyps (e_store en)) -> caps_hold en caps ->
+      res_sound en t caps' (eval en (EIn a b)) /\ ((t = CTrue \/ t = CNever) -> caps_hold en caps').
+  Proof.
+    intros IHa IHb Hca Hcb Hai Ha Hb Hrt H.
     destruct (IHa Hca _ _ _ Ha) as [Hwa Hsa]. destruct (IHb Hcb _ _ _ Hb) as [Hwb Hsb].
-    destruct ta as [| | | | | | | |ll|]; try discriminate. cbn [is_ent_ty andb] in H.
-    destruct (is_ent_or_set_of_ent tb) eqn:Hrt; [|discriminate]. cbn [negb] in H.
-    destruct (denotes_action sch tv a); [discriminate|].
     assert (Ht : caps' = caps /\ (t = CBool \/ (t = CFalse /\ exists r, (tb = CEnt r \/ tb = CSet (CEnt r)) /\ any_descendant sch ll r = false))).
-    { destruct tb as [| | | | | |e| |r|]; try discriminate.
+    { unfold in_general in H. destruct tb as [| | | | | |e| |r|]; try discriminate.
       - destruct e as [| | | | | | | |r|]; try discriminate; try (inversion H; subst; auto; fail).
         destruct (any_descendant sch ll r) eqn:Ead; inversion H; subst; auto. split; [reflexivity|]. right. split; [reflexivity|]. exists r. auto.
       - destruct (any_descendant sch ll r) eqn:Ead; inversion H; subst; auto. split; [reflexivity|]. right. split; [reflexivity|]. exists r. auto. }
@@ -663,7 +747,51 @@ Section Main.
     destruct (eval en b) as [w|k]; cbn [bindr res_ok] in *; [|assumption].
     destruct Ht as [->|(-> & r & Hr & Had)].
     - destruct (do_in_total (e_store en) (t0, i) w tb Hrt Hrb) as [x ->]. constructor.
-    - destruct Hen as (Hst & _). rewrite (do_in_false sch (e_store en) t0 i w ll tb r Hst (Hpo Hai) Hin Hr Hrb Had). constructor.
+    - destruct Hen as (Hst & _). rewrite (do_in_false sch (e_store en) t0 i w ll tb r Hst (proj1 (Hpo Hai)) Hin Hr Hrb Had). constructor.
+  Qed.
+
+  Lemma P_in a b : P a -> P b -> P (EIn a b).
+  Proof.
+    intros IHa IHb Hcore caps t caps' H. cbn [core] in Hcore. apply andb_true_iff in Hcore. destruct Hcore as [Hcore Hcb].
+    apply andb_true_iff in Hcore. destruct Hcore as [Hai Hca].
+    cbn [typeof] in H.
+    destruct (T a caps) as [ta ca| |] eqn:Ha; destruct (T b caps) as [tb cb| |] eqn:Hb; try discriminate.
+    destruct ta as [| | | | | | | |ll|]; try discriminate. cbn [is_ent_ty andb] in H.
+    destruct (is_ent_or_set_of_ent tb) eqn:Hrt; [|discriminate]. cbn [negb] in H.
+    destruct (action_euid sch tv a) as [l|] eqn:Ela; [|eapply in_general_sound; eauto].
+    destruct (action_euids sch tv b) as [rs|] eqn:Erb; [|eapply in_general_sound; eauto].
+    (* decided from the action hierarchy *)
+    set (ra := filter (fun u => umem u (ts_actions sch)) rs) in *.
+    assert (Ht : caps' = caps /\
+                 ((t = CTrue /\ In l rs) \/ t = CBool \/
+                  (t = CFalse /\ forall x, In x rs -> In x (ts_actions sch) -> x <> l /\
+                     (umem l (ts_actions sch) = true -> fst (areach sch (S (List.length (ts_agraph sch))) l x []) = false)))).
+    { assert (Hra : forall x, In x ra <-> In x rs /\ In x (ts_actions sch)).
+      { intros x. unfold ra. rewrite filter_In, umem_In. reflexivity. }
+      destruct ra as [|r0 ra'] eqn:Era.
+      - inversion H; subst. split; [reflexivity|]. right. right. split; [reflexivity|]. intros x Hx Hxa. exfalso. apply (proj2 (Hra x)); auto.
+      - rewrite <- Era in *. destruct (umem l ra) eqn:Eu.
+        + inversion H; subst. split; [reflexivity|]. left. split; [reflexivity|]. apply umem_In in Eu. apply Hra in Eu. tauto.
+        + destruct (action_below sch l ra) eqn:Eab; inversion H; subst; (split; [reflexivity|]); [right; left; reflexivity|].
+          right. right. split; [reflexivity|]. intros x Hx Hxa.
+          assert (Hxr : In x ra) by (apply Hra; auto).
+          assert (Hne : x <> l) by (intros ->; apply umem_In in Hxr; congruence).
+          split; [exact Hne|]. unfold action_below in Eab. pose proof (existsb_false_all _ _ Eab _ Hxr) as Hf. cbv beta in Hf.
+          assert (E1 : uid_eqb l x = false) by (destruct (uid_eqb l x) eqn:E; [apply uid_eqb_eq in E; congruence | reflexivity]).
+          intros E2. rewrite E1, E2 in Hf. cbn [negb andb] in Hf. exact Hf. }
+    destruct Ht as [-> Ht]. clear H. split; [destruct Ht as [[-> _]|[->|[-> _]]]; exact I|].
+    intros en Hen Hpo Hcaps. apply simple; [exact Hcaps|]. cbn [eval].
+    rewrite (action_euid_eval en a l Hen Ela). cbn [bindr ent_of as_entity].
+    destruct (action_euids_eval en (e_store en) (fst l, snd l) b rs Hen Erb) as (w & r & Ew & Hdo & Hiff).
+    rewrite Ew. cbn [bindr]. rewrite Hdo. cbn [res_ok].
+    assert (Hl : (fst l, snd l) = l) by (destruct l; reflexivity). rewrite Hl in Hiff.
+    destruct Ht as [[-> Hin]|[->|[-> Hno]]]; [|constructor|].
+    - assert (r = true) by (apply Hiff; exists l; split; [exact Hin | constructor]). subst r. constructor.
+    - destruct r; [|constructor]. exfalso. destruct (proj1 Hiff eq_refl) as (x & Hx & Hr).
+      destruct Hen as (Hst & _). destruct (Hpo Hai) as [Hih Hact]. pose proof (action_euid_declared a l Hact Ela) as Hla.
+      destruct (reach_action sch (e_store en) l x Hst Hih Hla Hr) as [<-|[Hcl Hxa]].
+      + destruct (Hno l Hx Hla) as [Hne _]. congruence.
+      + destruct (Hno x Hx Hxa) as [_ Hf]. specialize (Hf (proj2 (umem_In _ _) Hla)). rewrite (areach_complete sch l x Hcl) in Hf. discriminate.
   Qed.
 
   Lemma P_is_in a ty b : P a -> P b -> P (EIsIn a ty b).
@@ -835,7 +963,7 @@ Section Main.
     Forall P l -> forallb (core ai) l = true -> WT acc ->
     set_go (fun x => T x caps) caps l acc bad = TOk t caps' ->
     bad = false /\ caps' = caps /\ exists u, t = CSet u /\ WT u /\ sub acc u /\
-      Forall (fun x => forall en, env_ok sch tv en -> (ai = true -> in_hyps sch (e_store en)) -> caps_hold en caps -> res_ok (eval en x) u) l.
+      Forall (fun x => forall en, env_ok sch tv en -> (ai = true -> in_env_hyps (e_store en)) -> caps_hold en caps -> res_ok (eval en x) u) l.
   Proof.
     induction l as [|x r IH]; intros acc bad t caps' HP Hc Hw H.
     - cbn [set_go] in H. destruct bad; [discriminate|]. inversion H; subst. split; [reflexivity|]. split; [reflexivity|].
@@ -999,7 +1127,7 @@ Section Main.
     Forall P l -> forallb (core ai) l = true -> List.length l = List.length tys ->
     call_go (fun x => T x caps) caps ret lp l tys bad = TOk t caps' ->
     bad = false /\ lp = false /\ t = ret /\ caps' = caps /\
-    Forall2 (fun x ty => forall en, env_ok sch tv en -> (ai = true -> in_hyps sch (e_store en)) -> caps_hold en caps -> res_ok (eval en x) ty) l tys.
+    Forall2 (fun x ty => forall en, env_ok sch tv en -> (ai = true -> in_env_hyps (e_store en)) -> caps_hold en caps -> res_ok (eval en x) ty) l tys.
   Proof.
     induction l as [|x r IH]; intros tys bad t caps' HP Hc Hlen H.
     - destruct tys; [|discriminate]. cbn [call_go] in H. destruct bad; [discriminate|]. destruct lp; [discriminate|].
@@ -1089,6 +1217,9 @@ End Main.
 (* ------------------------------------------------------------------ *)
 (* Headline statements                                                  *)
 (* ------------------------------------------------------------------ *)
+(* the request environment's action is one of the schema's declared actions (Go enumerates request environments from schema.Actions) *)
+Definition action_declared (sch : tschema) (tv : tenv) : Prop := umem (tv_action tv) (ts_actions sch) = true.
+
 (* every attribute name used in an access `a.k` inside e is shorter than 10^39 bytes *)
 Definition keys_small (e : expr) : bool := core true e.
 
@@ -1099,7 +1230,7 @@ Proof. intros sch tv e Hs Ht Hc caps t caps' H. exact (proj1 (typeof_sound_all s
 
 (* MAIN THEOREM: the full language, in every conforming environment (env_ok, plus what the Go validator checks about action entities
    and unknown entity types and entity_ok does not say: actions_conform, store_types_known) *)
-Theorem typeof_sound_strict : forall sch tv e, schema_wf sch -> tenv_wf sch tv -> agraph_wf sch -> keys_small e = true ->
+Theorem typeof_sound_strict : forall sch tv e, schema_wf sch -> tenv_wf sch tv -> agraph_wf sch -> action_declared sch tv -> keys_small e = true ->
   forall caps t caps', typeof true sch tv e caps = TOk t caps' ->
   forall en, env_ok sch tv en -> actions_conform sch (e_store en) -> store_types_known sch (e_store en) -> caps_hold en caps ->
     match eval en e with
@@ -1107,21 +1238,21 @@ Theorem typeof_sound_strict : forall sch tv e, schema_wf sch -> tenv_wf sch tv -
     | Err k => allowed_error k = true
     end.
 Proof.
-  intros sch tv e Hs Ht Hg Hc caps t caps' H en Hen Hac Hk Hcaps.
+  intros sch tv e Hs Ht Hg Hd Hc caps t caps' H en Hen Hac Hk Hcaps.
   destruct (typeof_sound_all sch tv Hs Ht true e Hc caps t caps' H) as [_ Hsound].
-  destruct (Hsound en Hen (fun _ => conj Hg (conj Hac Hk)) Hcaps) as [Hr _]. exact Hr.
+  destruct (Hsound en Hen (fun _ => conj (conj Hg (conj Hac Hk)) Hd) Hcaps) as [Hr _]. exact Hr.
 Qed.
 
 (* the stronger capability fact the induction carries: an expression typed True (or Never) establishes its capabilities in every
    conforming environment, whether or not it is evaluated (this is what `a || b` with b : True relies on) *)
-Theorem typeof_true_caps : forall sch tv e, schema_wf sch -> tenv_wf sch tv -> agraph_wf sch -> keys_small e = true ->
+Theorem typeof_true_caps : forall sch tv e, schema_wf sch -> tenv_wf sch tv -> agraph_wf sch -> action_declared sch tv -> keys_small e = true ->
   forall caps t caps', typeof true sch tv e caps = TOk t caps' -> (t = CTrue \/ t = CNever) ->
   forall en, env_ok sch tv en -> actions_conform sch (e_store en) -> store_types_known sch (e_store en) -> caps_hold en caps ->
     caps_hold en caps'.
 Proof.
-  intros sch tv e Hs Ht Hg Hc caps t caps' H Htt en Hen Hac Hk Hcaps.
+  intros sch tv e Hs Ht Hg Hd Hc caps t caps' H Htt en Hen Hac Hk Hcaps.
   destruct (typeof_sound_all sch tv Hs Ht true e Hc caps t caps' H) as [_ Hsound].
-  destruct (Hsound en Hen (fun _ => conj Hg (conj Hac Hk)) Hcaps) as [_ Hr]. exact (Hr Htt).
+  destruct (Hsound en Hen (fun _ => conj (conj Hg (conj Hac Hk)) Hd) Hcaps) as [_ Hr]. exact (Hr Htt).
 Qed.
 
 (* the statement of the task, literally (sound_at of Lang/TypeSound.v), for expressions without `in` (`is .. in` is allowed) *)
@@ -1184,21 +1315,23 @@ Definition en_a : env := {| e_store := st_a; e_principal := VEntity (S_ "G") (S_
                             e_resource := VEntity (S_ "G") (S_ "2"); e_context := VRecord [] |}.
 
 Example strict_needs_action_conformance : exists sch tv e t caps en,
-  schema_wf sch /\ tenv_wf sch tv /\ agraph_wf sch /\ keys_small e = true /\
+  schema_wf sch /\ tenv_wf sch tv /\ agraph_wf sch /\ action_declared sch tv /\ keys_small e = true /\
   typeof true sch tv e [] = TOk t caps /\ env_ok sch tv en /\ store_types_known sch (e_store en) /\
   ~ actions_conform sch (e_store en) /\
   (exists k, eval en e = Err k /\ allowed_error k = false).
 Proof.
-  exists sch_a, tv_a, e_a, CTrue, [], en_a. split; [|split; [|split; [|split; [|split; [|split; [|split; [|split]]]]]]].
+  exists sch_a, tv_a, e_a, CTrue, [], en_a. split; [|split; [|split; [|split; [|split; [|split; [|split; [|split; [|split]]]]]]]].
   - split; [reflexivity|]. intros n te H. unfold entity_of, sch_a in H. cbn [ts_entities alookup] in H.
     destruct (str_eqb (S_ "G") n); [|discriminate]. inversion H; subst te. split; [intros k t q E; discriminate | intros tt E; discriminate].
   - unfold tenv_wf. apply WT_rec. split; constructor.
-  - split; [|split].
+  - split; [|split; [|split]].
+    + intros u. cbn. tauto.
     + intros a ps [H|[]]. inversion H; subst. split; [reflexivity | intros p []].
     + intros n Hn. unfold entity_of, sch_a. cbn [ts_entities ts_enums alookup smem existsb].
       destruct (str_eqb (S_ "G") n) eqn:E; [|auto]. apply str_eqb_eq in E. subst n. vm_compute in Hn. discriminate.
     + intros n te p H Hp. unfold entity_of, sch_a in H. cbn [ts_entities alookup] in H.
       destruct (str_eqb (S_ "G") n); [|discriminate]. inversion H; subst te. destruct Hp.
+  - reflexivity.
   - reflexivity.
   - vm_compute. reflexivity.
   - split; [|split; [constructor; left; reflexivity | split; [reflexivity | split; [constructor; left; reflexivity|]]]].
@@ -1215,9 +1348,26 @@ Proof.
   - exists EType. split; vm_compute; reflexivity.
 Qed.
 
+(* 3. strict mode: action_declared cannot be dropped either (a model-level remark: Go builds request environments from the schema's
+   actions).  With an undeclared request action, `action in action` is typed False (no right-hand uid is a declared action). *)
+Definition e_d : expr := EIf (EIn (EVar VAction) (EVar VAction)) ill_typed (ELit (VBool true)).
+Definition en_d : env := {| e_store := []; e_principal := VEntity (S_ "U") (S_ "1"); e_action := VEntity (S_ "Action") (S_ "view");
+                            e_resource := VEntity (S_ "U") (S_ "2"); e_context := VRecord [(S_ "c", VBool true)] |}.
+Example strict_needs_action_declared : exists sch tv e t caps en,
+  typeof true sch tv e [] = TOk t caps /\ env_ok sch tv en /\ ~ action_declared sch tv /\
+  (exists k, eval en e = Err k /\ allowed_error k = false).
+Proof.
+  exists sch_p, tv_p, e_d, CTrue, [], en_d. split; [vm_compute; reflexivity|]. split; [|split].
+  - split; [apply store_ok_nil|]. split; [constructor; left; reflexivity|]. split; [reflexivity|].
+    split; [constructor; left; reflexivity|]. apply vtyped_rec1. constructor.
+  - unfold action_declared. vm_compute. discriminate.
+  - exists EType. split; vm_compute; reflexivity.
+Qed.
+
 Print Assumptions typeof_sound_strict.
 Print Assumptions typeof_true_caps.
 Print Assumptions typeof_strict_WT.
 Print Assumptions typeof_sound_strict_in_free.
 Print Assumptions permissive_unsound.
 Print Assumptions strict_needs_action_conformance.
+Print Assumptions strict_needs_action_declared.
